@@ -154,7 +154,12 @@ class ExprMixin:
                                               or (self.symbolic_globals is not True and nm in self.symbolic_globals)):
                     return nf.sym(f'{m.name}.{nm}')      # the physical constants stay symbols (H, C, K); other numbers are values
                 return self.e_Constant(val, None)
-            if isinstance(val, ast.Dict) and val.keys and all(k is not None and isinstance(k, ast.Constant) for k in val.keys) and \
+            seq_of_callables = isinstance(val, (ast.Tuple, ast.List)) and val.elts and \
+                all(isinstance(v_, (ast.Lambda, ast.Name, ast.Attribute)) for v_ in val.elts) and \
+                all(isinstance(v_, ast.Lambda) or (dotted(v_) or '').split('.')[-1] in
+                    ('max', 'min', 'abs', 'sum', 'len', 'floor', 'ceil', 'sin', 'cos', 'real', 'imag', 'sqrt', 'maximum', 'minimum')
+                    for v_ in val.elts)
+            if seq_of_callables or isinstance(val, ast.Dict) and val.keys and all(k is not None and isinstance(k, ast.Constant) for k in val.keys) and \
                     all(isinstance(v_, (ast.Lambda, ast.Name, ast.Attribute)) for v_ in val.values) and \
                     any(isinstance(v_, ast.Lambda) for v_ in val.values):
                 # a dispatch table {key: lambda ...}: read by value so that TABLE[key](x) is the call of that function
@@ -270,8 +275,9 @@ class ExprMixin:
                 sa = a.single_atom()
                 if sa is None or sa[0] == 'idx':
                     known = False
-                elif sa[0] == 'app' and not sa[1].startswith(('m:', 'call:', 'callv', 'dict', 'kwargs')):
-                    known = False       # arithmetic / array-creating results are never None
+                elif sa[0] == 'app' and not sa[1].startswith(('m:', 'call:', 'callv', 'dict', 'kwargs')) and \
+                        sa[1] not in ('next', 'getattr', 'ifexp', 'min', 'max', 're.match', 're.search', 'os.environ.get'):
+                    known = False       # arithmetic / array-creating results are never None (next(it, None) etc. can be)
             if known is not None:
                 return Const(known if op == 'is' else not known)
             return app(op, P(a), P(b))
